@@ -143,7 +143,8 @@ func (g *Gen) MixinDoc(ids *idPool) M {
 					default:
 						// ids: unique within the document, from a small pool so that documents collide
 						for tries := 0; tries < 20; tries++ {
-							id := g.pick([]string{"getA", "getB", "listPets", "x", "delPet", "opt", "createThing"})
+							// (ids that end in Mixin<N> while their stem "list" is no id anywhere: within the premise of C18)
+							id := g.pick([]string{"getA", "getB", "listPets", "x", "delPet", "opt", "createThing", "listMixin0", "listMixin1"})
 							if !ids.used[id] {
 								ids.used[id] = true
 								op["operationId"] = id
@@ -159,6 +160,11 @@ func (g *Gen) MixinDoc(ids *idPool) M {
 		}
 		if g.p(0.2) {
 			paths["x-paths-ext"] = "v"
+		}
+		if g.p(0.08) {
+			// a paths object that holds vendor extensions only
+			paths = M{"x-paths-ext": "only", "x-Other": 1}
+			g.hit("mixin:paths-extensions-only")
 		}
 		d["paths"] = paths
 	}
